@@ -92,3 +92,20 @@ Definition q_class (q : aquery) (t : table) : Z :=
   else if cls_sum_empty q t then 2
   else if cls_overflow q t then 3
   else 0.
+
+(* ------------------------------------------------------------------ one aggregate over one list of values *)
+Definition is_textual (v : value) : bool := match v with VText _ | VBool _ => true | _ => false end.
+(* the class of aggregate f over the argument values vs (0 = none) *)
+Definition vals_class (f : aggfn) (vs : list value) : Z :=
+  match f with
+  | FCount => if existsb is_null vs then 1 else 0
+  | FSum => match nonnull vs with [] => 2 | _ => 0 end
+  | FMin | FMax => if existsb is_textual vs then 4 else 0
+  | _ => 0
+  end.
+(* SUM / AVG over integers (sums of doubles: Proof/AggFloat.v) *)
+Definition int_sums (f : aggfn) (vs : list value) : bool :=
+  match f with
+  | FSum | FAvg => match ints_of (nonnull vs) with Some _ => true | None => false end
+  | _ => true
+  end.
